@@ -41,7 +41,7 @@ func delC(ds []pgdump.DeletedRow) string {
 
 func init() {
 	register("VisibilityViews", func(a []string) string {
-		cols := []pgdump.Column{{Name: "id", TypID: pgdump.OidInt4, Len: 4, Num: 1, Align: 'i'}}
+		cols := []pgdump.Column{{Name: "id", TypID: pgdump.OidInt4, Len: 4, Num: 1, Align: 'i'}, {Name: "b", TypID: pgdump.OidInt4, Len: 4, Num: 2, Align: 'i'}, {Name: "c", TypID: pgdump.OidInt4, Len: 4, Num: 3, Align: 'i'}}
 		lo, _ := strconv.Atoi(a[1])
 		hi, _ := strconv.Atoi(a[2])
 		return withBuf(a[0], "-", func(b []byte) string {
